@@ -202,6 +202,7 @@ def run_encoder(case):
     out = []
     t = 0
     done_at = None
+    since_start = 0
     while t < budget:
         pulse = 0
         if not busy and k < len(reqs):
@@ -212,6 +213,15 @@ def run_encoder(case):
                 size.put(reqs[k][1])
             else:
                 wait -= 1
+        if busy and not pulse and case.get('perturb'):
+            # the value port moves on while the response is still being drained (the selected output changes): the
+            # response must carry the value that was selected when it was started
+            since_start += 1
+            pk = case['perturb'][k % len(case['perturb'])]
+            if pk is not None and since_start == pk[0]:
+                vin.put(pk[1])
+        if pulse:
+            since_start = 0
         start_resp.put(pulse)
         r = rpat[t % len(rpat)]
         cready.put(r)
@@ -244,8 +254,10 @@ def run_encoder(case):
 def encoder_cases():
     req = st.tuples(st.one_of(st.integers(0, mask(32)), st.sampled_from([0, 0xA, 0xDEADBEEF, 0xFFFFFFFF])), st.integers(1, 8),
                     st.sampled_from([0, 0, 0, 1, 2, 5])).map(list)
+    pert = st.one_of(st.none(), st.tuples(st.integers(1, 12), st.integers(0, mask(32))).map(list))
     return st.fixed_dictionaries({'kind': st.just('encoder'), 'reqs': st.lists(req, min_size=1, max_size=5),
-                                  'ready': st.lists(st.integers(0, 1), min_size=1, max_size=5)})
+                                  'ready': st.lists(st.integers(0, 1), min_size=1, max_size=5),
+                                  'perturb': st.one_of(st.none(), st.lists(pert, min_size=1, max_size=3))})
 
 
 def _num(maxbits):
